@@ -105,16 +105,26 @@ Theorem C13_wrong_length_rejected_blsg1 : forall c bs,
 Proof. exact blsg1_wrong_length. Qed.
 Print Assumptions C13_wrong_length_rejected_blsg1.
 
-(* compressed BLS12-381 flags.  The full statement "every reserved flag combination is refused"
-   is FALSE of blsg1_dec_u (the uncompressed decoder of the code masks the C and S bits away and
-   accepts anything under the I bit) — reported by the correspondence harness as a finding; only
-   the compressed format is proved. *)
-Theorem C13_wrong_flags_rejected_blsg1_compressed_partial : forall c b0 r,
+(* BLS12-381 (ZCash) flags: compressed form requires C, infinity admits neither S nor a payload;
+   uncompressed form admits neither C nor S, infinity admits no payload *)
+Theorem C13_wrong_flags_rejected_blsg1_compressed : forall c b0 r,
   (flagC b0 <> 1 -> blsg1_dec_c c (b0 :: r) = None) /\
   (flagI b0 = 1 -> flagS b0 = 1 -> blsg1_dec_c c (b0 :: r) = None) /\
   (flagI b0 = 1 -> (b0 mod 32 <> 0 \/ all_zero r = false) -> blsg1_dec_c c (b0 :: r) = None).
 Proof. exact blsg1_wrong_flags. Qed.
-Print Assumptions C13_wrong_flags_rejected_blsg1_compressed_partial.
+Print Assumptions C13_wrong_flags_rejected_blsg1_compressed.
+
+Theorem C13_wrong_flags_rejected_blsg1_uncompressed : forall c b0 r,
+  (flagC b0 = 1 -> blsg1_dec_u c (b0 :: r) = None) /\
+  (flagS b0 = 1 -> blsg1_dec_u c (b0 :: r) = None) /\
+  (flagI b0 = 1 -> (b0 mod 32 <> 0 \/ all_zero r = false) -> blsg1_dec_u c (b0 :: r) = None).
+Proof. exact blsg1_wrong_flags_u. Qed.
+Print Assumptions C13_wrong_flags_rejected_blsg1_uncompressed.
+
+Theorem C13_from_affine_x_blsg1_on_curve : forall c x odd P,
+  blsg1_from_affine_x c x odd = Some P -> w_on_curve (wc c) P = true.
+Proof. exact blsg1_from_affine_x_on_curve. Qed.
+Print Assumptions C13_from_affine_x_blsg1_on_curve.
 
 Theorem C13_wrong_length_rejected_ed_x : forall c bs,
   (length bs <> ec_len c -> ed_dec_c c bs = None) /\
@@ -139,6 +149,14 @@ Theorem C13_field25519_decode_reduces : forall p bs v,
   fld25519_from_bytes p bs = Some v -> length bs = 32%nat /\ be_val bs < 2 ^ 255 /\ v = be_val bs mod p.
 Proof. exact fld25519_from_bytes_reduces. Qed.
 Print Assumptions C13_field25519_decode_reduces.
+
+(* edwards25519 Fp.SetBytesWide folds bits 255 and 511 in by hand (19, 38, 722): it is the value
+   modulo 2^255 - 19 *)
+Theorem C13_field25519_decode_wide_reduces : forall p bs v,
+  p = 2 ^ 255 - 19 -> is_bytes bs ->
+  fld25519_from_wide p bs = Some v -> (length bs <= 64)%nat /\ v = be_val bs mod p.
+Proof. exact fld25519_from_wide_reduces. Qed.
+Print Assumptions C13_field25519_decode_wide_reduces.
 
 (* ---- square roots: Tonelli–Shanks as coded finds a root of every square ---------------------- *)
 
